@@ -1,5 +1,6 @@
 import ScyllaVerif.Model.Util
 import ScyllaVerif.Model.Request
+import ScyllaVerif.Model.RequestGlue
 /-! Line-protocol driver for C09 (request frames).
 
 Case: `<kind> <comp> <tracing> <stream> <fields…>` (see `harness/src/c09.rs` for the grammar); output `ok <frame hex>` or
@@ -286,12 +287,210 @@ def runDecomp (c : Compression) (body : Bytes) (impl : String) : String :=
     | .error .codec =>
       if refS == "skip" then "REJECT reference-decoder-skipped-but-the-model-needs-it" else "err codec" ++ tail
 
+/-! ### `sess …`: connection-level glue (see `harness/src/c09/conn.rs` for the grammar) -/
+section Sess
+open ScyllaVerif.RequestGlue
+
+def bytesLt : Bytes → Bytes → Bool
+  | [], [] => false
+  | [], _ :: _ => true
+  | _ :: _, [] => false
+  | a :: as, b :: bs => if a < b then true else if b < a then false else bytesLt as bs
+
+def pairLt (x y : Bytes × Bytes) : Bool :=
+  bytesLt x.1 y.1 || (x.1 == y.1 && bytesLt x.2 y.2)
+
+def insertSorted (x : Bytes × Bytes) : List (Bytes × Bytes) → List (Bytes × Bytes)
+  | [] => [x]
+  | y :: ys => if pairLt x y then x :: y :: ys else y :: insertSorted x ys
+
+def sortPairs (xs : List (Bytes × Bytes)) : List (Bytes × Bytes) := xs.foldr insertSorted []
+
+def cfgToks : List String → Option StmtConfig
+  | [c, sc, ts, tr] =>
+    let cons : Option (Option Consistency) := if c == "N" then some none else (consistencyTok c).map some
+    let serial : Option (Option (Option SerialConsistency)) :=
+      match sc with
+      | "D" => some none
+      | "N" => some (some none)
+      | "Serial" => some (some (some .serial))
+      | "LocalSerial" => some (some (some .localSerial))
+      | _ => none
+    match cons, serial, i64Tok ts, boolTok tr with
+    | some cons, some serial, some ts, some tr => some { consistency := cons, serialConsistency := serial, timestamp := ts, tracing := tr }
+    | _, _, _, _ => none
+  | _ => none
+
+/-- page size: `N` or a positive i32. -/
+def pageSizeTok (s : String) : Option (Option Int32) :=
+  match i32Tok s with
+  | some (some v) => if v.toInt ≤ 0 then none else some (some v)
+  | other => other
+
+def extFieldOk (s : String) : Bool := s.toList.all (fun c => c.isAlphanum || c == '-')
+
+structure SessHead where
+  ext : Bool
+  comps : List String
+  rl : Option String
+  lwt : Option String
+  tab : Bool
+  cfgcomp : Option Compression
+  genr : Option Int64
+
+def sessHead : List String → Option SessHead
+  | [ext, comps, rl, lwt, tab, cfg, genr] =>
+    let compsL := if comps == "-" then [] else comps.splitOn "+"
+    match boolTok ext, boolTok tab, compTok cfg, i64Tok genr with
+    | some ext, some tab, some cfg, some genr =>
+      if compsL.all (fun c => c == "lz4" || c == "snappy") && extFieldOk rl && extFieldOk lwt then
+        some { ext := ext, comps := compsL, rl := if rl == "N" then none else some rl,
+               lwt := if lwt == "N" then none else some lwt, tab := tab, cfgcomp := cfg, genr := genr }
+      else none
+    | _, _, _, _ => none
+  | _ => none
+
+/-- `ProtocolFeatures::parse_from_supported` on the scripted SUPPORTED (`str::parse::<i32>` / `::<u32>`). -/
+def negotiated (h : SessHead) : Negotiated :=
+  { rateLimitError :=
+      match h.rl with
+      | some v => match v.toInt? with
+        | some i => decide (-(2 ^ 31) ≤ i ∧ i < 2 ^ 31)
+        | none => false
+      | none => false
+    lwtMask :=
+      match h.lwt with
+      | some v => match v.toNat? with
+        | some n => if n < 2 ^ 32 then some n else none
+        | none => none
+      | none => none
+    tabletsV1 := h.tab
+    metadataId := h.ext
+    compressionSupported :=
+      match h.cfgcomp with
+      | some .lz4 => h.comps.contains "lz4"
+      | some .snappy => h.comps.contains "snappy"
+      | none => false }
+
+def connCtx (h : SessHead) : ConnCtx :=
+  { defaultConsistency := .localQuorum, genTimestamp := h.genr, metadataIdExt := h.ext }
+
+def hex2 (n : Nat) : String := hexByte (UInt8.ofNat n)
+
+/-- One frame as the harness prints it: `<header flags>:<opcode>:<uncompressed body>`. -/
+def frameStr (comp : Option Compression) (tracing : Bool) (op : Nat) (body : Bytes) : String :=
+  hex2 (frameFlags comp.isSome tracing) ++ ":" ++ hex2 op ++ ":" ++ toHex body
+
+def prepInfoToks (h : SessHead) : List String → Option (Bytes × PreparedInfo × Nat)
+  | [text, id, bind, rcols, mid] =>
+    match bytesTok text, bytesTok id, bind.toNat?, rcols.toNat?, optBytesTok mid with
+    | some text, some id, some bind, some rcols, some mid =>
+      if mid.isSome != h.ext || bind > 300 || rcols > 300 || text.isEmpty then none
+      else some (text, { id := id, resultColCount := rcols, resultMetadataId := mid, useCachedResultMetadata := false }, bind)
+    | _, _, _, _, _ => none
+  | _ => none
+
+def prepareFrame (comp : Option Compression) (text : Bytes) : Option String :=
+  match encodeBody (.prepare text) with
+  | .ok b => some (frameStr comp false Generated.requestOpcode_Prepare b)
+  | .error _ => none
+
+def reqFrame (comp : Option Compression) (tracing : Bool) (r : Req) : List String :=
+  match encodeBody r with
+  | .ok b => [frameStr comp tracing (opcode r) b]
+  | .error _ => []
+
+def dedup : List Bytes → List Bytes
+  | [] => []
+  | x :: xs => x :: (dedup xs).filter (· != x)
+
+/-- `q:text:id:cols` / `p:text:id:cols`. -/
+def sessStmtTok (_h : SessHead) (s : String) : Option (Bool × Bytes × Bytes × Nat) :=
+  match s.splitOn ":" with
+  | [k, text, id, cols] =>
+    match bytesTok text, bytesTok id, cols.toNat? with
+    | some text, some id, some cols =>
+      if (k == "p" || k == "q") && cols ≤ 300 && !text.isEmpty then some (k == "p", text, id, cols) else none
+    | _, _, _ => none
+  | _ => none
+
+def runSess (fields : List String) (impl : String) : String :=
+  match sessHead (fields.take 7), fields.drop 7 with
+  | some h, op :: f =>
+    let n := negotiated h
+    let conn := connCtx h
+    let comp := effectiveCompression n h.cfgcomp
+    let startup := "startup=" ++ ",".intercalate ((sortPairs (startupOptions n h.cfgcomp)).map
+      (fun kv => toHex kv.1 ++ "=" ++ toHex kv.2))
+    let finishFrames (frames : List String) : String :=
+      (startup ++ " frames=" ++ toString frames.length ++ " " ++ " ".intercalate frames).trimAscii.toString
+    match op, f with
+    | "query", [text, c, sc, ts, tr, ps, pg] =>
+      match bytesTok text, cfgToks [c, sc, ts, tr], pageSizeTok ps, optBytesTok pg with
+      | some text, some cfg, some ps, some pg =>
+        finishFrames (reqFrame comp cfg.tracing (queryRequest text cfg conn ps pg))
+      | _, _, _, _ => "bad-case"
+    | "execute", [text, id, bind, rcols, mid, uc, c, sc, ts, tr, ps, pg, vals] =>
+      match prepInfoToks h [text, id, bind, rcols, mid], boolTok uc, cfgToks [c, sc, ts, tr], pageSizeTok ps,
+            optBytesTok pg, valuesTok vals with
+      | some (text, info, _), some uc, some cfg, some ps, some pg, some vals =>
+        match prepareFrame comp text, mkSerVals vals with
+        | some pf, .ok _ =>
+          finishFrames (pf :: reqFrame comp cfg.tracing
+            (executeRequest { info with useCachedResultMetadata := uc } vals cfg conn ps pg))
+        | some _, .error e => "err values:" ++ errStr e
+        | none, _ => "bad-case"
+      | _, _, _, _, _, _ => "bad-case"
+    | "iter", [text, id, bind, rcols, mid, c, sc, ts, tr, ps, states, vals] =>
+      let statesL : Option (List Bytes) := if states == "_" then some [] else (states.splitOn ",").mapM bytesTok
+      match prepInfoToks h [text, id, bind, rcols, mid], cfgToks [c, sc, ts, tr], pageSizeTok ps, statesL, valuesTok vals with
+      | some (text, info, _), some cfg, some (some ps), some states, some vals =>
+        if states.any (·.isEmpty) || states.length > 50 then "bad-case"
+        else
+          match prepareFrame comp text, mkSerVals vals with
+          | some pf, .ok _ =>
+            finishFrames (pf :: (pagerRequests info vals cfg conn ps states).flatMap (reqFrame comp cfg.tracing))
+          | some _, .error e => "err values:" ++ errStr e
+          | none, _ => "bad-case"
+      | _, _, _, _, _ => "bad-case"
+    | "batch", ty :: c :: sc :: ts :: tr :: rest =>
+      let (ss, rs) := splitAtSlash rest
+      match batchTypeTok ty, cfgToks [c, sc, ts, tr], ss.mapM (sessStmtTok h), rs.mapM valuesTok with
+      | some ty, some cfg, some ss, some rows =>
+        let consistent := ss.all (fun a => ss.all (fun b => a.2.1 != b.2.1 || (a.2.2.1 == b.2.2.1 && a.2.2.2 == b.2.2.2)))
+        if !consistent || ss.length > 200 || rows.length > 200 then "bad-case"
+        else
+          let server (t : Bytes) : Bytes × Nat :=
+            match ss.find? (fun x => x.2.1 == t) with
+            | some x => (x.2.2.1, x.2.2.2)
+            | none => ([], 0)
+          let stmts : List GlueStmt := ss.map (fun x => if x.1 then .prepared x.2.2.1 x.2.2.2 else .unprepared x.2.1)
+          -- PREPAREs issued by the caller, in order
+          let pre := (ss.filter (·.1)).filterMap (fun x => prepareFrame comp x.2.1)
+          -- PREPAREs issued by prepare_batch: a set; take the order from the implementation's line
+          let tp := dedup (textsToPrepare stmts rows)
+          let tpFrames := tp.filterMap (prepareFrame comp)
+          let implFrames := (implWords impl).filter (fun w => w.length > 5 && (w.drop 2).toString.startsWith ":09:")
+          let observed := implFrames.drop pre.length
+          let tpOrdered := if isPerm observed tpFrames then observed else tpFrames
+          let batch : List String :=
+            match batchRequestBody server ty stmts rows cfg conn with
+            | .ok b => [frameStr comp cfg.tracing Generated.requestOpcode_Batch b]
+            | .error _ => []
+          finishFrames (pre ++ tpOrdered ++ batch)
+      | _, _, _, _ => "bad-case"
+    | _, _ => "bad-case"
+  | _, _ => "bad-case"
+
+end Sess
+
 def run (case impl : String) : String :=
   match words case with
   | ["biglen", what, n] =>
     match n.toNat? with
     | some n => bigLen what n
     | none => "bad-case"
+  | "sess" :: fields => runSess fields impl
   | ["decomp", comp, body] =>
     match compTok comp, bytesTok body with
     | some (some c), some b => runDecomp c b impl
